@@ -109,6 +109,15 @@ func (f LeveldbDiskStorage) SetTableMeta(tbl *btapb.Table) {
 	verifYield("disk.SetTableMeta.renamed")
 }
 
+// DeleteTableMeta removes the persisted metadata of a table, so that it is not loaded again by GetTables.
+// The row data stays on disk until a table of that name is created again (Create destroys any existing data).
+func (f LeveldbDiskStorage) DeleteTableMeta(tbl *btapb.Table) {
+	outPath := filepath.Join(f.Root, tbl.Name) + ".table.proto"
+	if err := os.Remove(outPath); err != nil && !os.IsNotExist(err) {
+		f.errLog(err, "os.Remove %q", outPath)
+	}
+}
+
 func (f LeveldbDiskStorage) errLog(err error, format string, args ...interface{}) {
 	if f.ErrLog != nil {
 		f.ErrLog(err, fmt.Sprintf(format, args...))
